@@ -36,6 +36,12 @@ def strategy_(draw, tier):
     base["reply"] = draw(st.one_of(st.sampled_from(REPLIES),
                                    st.text(alphabet="yYnN \t", max_size=4).map(lambda s: s + "\n")))
     base["use_trash_dir"] = draw(st.booleans())
+    # some entries get a name that cannot be encoded for stdout (not valid UTF-8): printing
+    # 'would remove ...' / 'removing ...' fails there, which must never turn into a purge
+    if draw(st.integers(0, 3)) == 0:
+        for e in base["ents"]:
+            if draw(st.booleans()):
+                e["orig"] = e["orig"] + draw(st.sampled_from(["\udce9", "\udcff\udcfe", "caf\udce9"]))
     return base
 
 
@@ -64,7 +70,8 @@ def run_case(case):
     mode = case["mode"]
     reply = case["reply"]
     yes = reply[0:1] in ("y", "Y")
-    tags = dict(mode=mode, days=dcl)
+    nonutf8 = any("nonutf8" in gen.name_class(e["orig"].rsplit("/", 1)[1]) for e in case["ents"])
+    tags = dict(mode=mode, days=dcl, nonutf8=nonutf8)
     # reference: what the plain command removes
     sandbox.build_world(spec)
     before = sandbox.snapshot()
@@ -109,9 +116,10 @@ def run_case(case):
                          "non-interactive run removes %d (stderr %r)" % (
                              reply, mode, len(gone), len(removed), ra.err[-200:]), reply=rcls, **tags)
     out.classes += ["mode:" + mode, "reply:" + rcls, "days:" + dcl, "exit:%d" % ra.code,
+                    "nonutf8_names:%s" % nonutf8,
                     "trash_dir_opt:%s" % case["use_trash_dir"]]
     if removed:
-        out.key = [mode, rcls, dcl, case["verbose"], case["use_trash_dir"], min(len(removed), 6)]
+        out.key = [mode, rcls, dcl, case["verbose"], case["use_trash_dir"], min(len(removed), 6), nonutf8]
         out.sample = {"args": args, "mode": mode, "reply": reply, "removed_by_real_run": len(removed),
                       "exit": ra.code}
     return out
